@@ -62,6 +62,9 @@ type span struct {
 	sure   bool  // add: Broadcast returned nil; removal: documented removal
 	round  int   // removal reported from inside this round (-1 otherwise)
 	src    string
+	// ann (adds only): when the callback of the initial broadcast was
+	// entered, i.e. the announcement to the network started (0: unknown).
+	ann int64
 }
 
 // window is the interval within which a round's snapshot of the pending set
@@ -90,6 +93,7 @@ type Analysis struct {
 	confs       int
 	handler     int64
 	badGid      bool
+	initGids    map[int64]bool
 	submitTx    map[int]bool
 }
 
@@ -147,11 +151,18 @@ func Analyze(sp *Spec, log []Event) *Analysis {
 			a.idle = append(a.idle, idleProof{lo: int64(e.Op), hi: e.Seq, barrier: e.Res == "barrier"})
 		case "cb_enter":
 			if e.Initial {
+				// Usually every initial broadcast runs on the handler
+				// goroutine; nothing in the statement requires it, so
+				// several goroutines are accepted. What the analysis
+				// needs is that initial callbacks and rounds can be told
+				// apart (by goroutine): checked below.
 				if a.handler == 0 {
 					a.handler = e.Gid
-				} else if a.handler != e.Gid {
-					a.badGid = true
 				}
+				if a.initGids == nil {
+					a.initGids = map[int64]bool{}
+				}
+				a.initGids[e.Gid] = true
 				if o := a.bcast[e.Op]; o != nil {
 					o.cbEnter, o.out = e.Seq, e.Out
 				}
@@ -182,7 +193,7 @@ func Analyze(sp *Spec, log []Event) *Analysis {
 	sort.Slice(a.Rounds, func(i, j int) bool { return a.Rounds[i].First < a.Rounds[j].First })
 	for i, r := range a.Rounds {
 		r.Idx = i
-		if r.Gid == a.handler {
+		if r.Gid == a.handler || a.initGids[r.Gid] {
 			a.badGid = true
 		}
 	}
@@ -205,6 +216,9 @@ func Analyze(sp *Spec, log []Event) *Analysis {
 			s.lo = o.cbExit * 2
 		} else {
 			s.lo = o.call * 2
+		}
+		if o.cbEnter != 0 {
+			s.ann = o.cbEnter * 2
 		}
 		if retNil {
 			s.hi, s.sure = o.ret*2, true
@@ -287,7 +301,12 @@ func (a *Analysis) definitelyNotPending(t int, w window) (bool, string) {
 		}
 		found := false
 		for _, r := range a.rems[t] {
-			if r.sure && r.lo > ad.hi && r.before(w) {
+			// A MarkAsConfirmed CALLED after the announcement of this very
+			// broadcast had started also ends it: the handler is inside
+			// that broadcast and takes the confirmation only afterwards
+			// ("until it is reported confirmed").
+			afterAnn := r.round < 0 && ad.ann != 0 && r.lo > ad.ann
+			if r.sure && (r.lo > ad.hi || afterAnn) && r.before(w) {
 				found = true
 				why = r.src
 				break
@@ -511,7 +530,7 @@ func (a *Analysis) Check() (fs []Finding, incon []string, st Stats) {
 	sp := a.sp
 	mc := sp.MapCustom
 	if a.badGid {
-		incon = append(incon, "callback classification: initial broadcasts on more than one goroutine or a round on the handler goroutine")
+		incon = append(incon, "callback classification: a rebroadcast round on a goroutine that also made an initial broadcast")
 		return
 	}
 	st.Confirmations = a.confs
